@@ -119,8 +119,8 @@ def nontrivial(c):
     return len(c['votes']) > 1
 
 
-def gen(rng, count, hare=False):
-    for c in c03.gen(rng, count, selector_only=False):
+def gen(rng, count, hare=False, boundary=False):
+    for c in (c03.gen_boundary if boundary else c03.gen)(rng, count, selector_only=False):
         c = dict(c)
         c['form'] = 'selector' if all(v == 1 for _, v in c['caps']) else 'distributor'
         c['cfg'] = dict(c['cfg'], quota=rng.choice([3, 3, 1]), mq=0)
@@ -141,10 +141,12 @@ def explore(ctx, widen=1):
     kw = dict(canon=canon, nontrivial=nontrivial, spec=spec, known_class=known_class, limit=20)
     ctx.differential('corpus', corpus(), model_line, impl, **kw)
     ctx.differential('gregory', gen(ctx.rng, ctx.n(1200, 20000) * widen), model_line, impl, **kw)
+    ctx.differential('gregory-boundary', gen(ctx.rng, ctx.n(800, 10000) * widen, boundary=True), model_line, impl, **kw)
     # Hare (seeded): no model; outcome clauses and the C03 invariants on the implementation only
     hk = dict(canon=canon_hare, nontrivial=nontrivial, known_class=known_class, limit=20,
               spec=lambda c, io, mo: spec(c, io, mo) or c03.spec(dict(c, transferer=_hare(c)), io, mo))
     ctx.differential('hare-seeded', gen(ctx.rng, ctx.n(400, 5000) * widen, hare=True), model_line, impl, **hk)
+    ctx.differential('hare-boundary', gen(ctx.rng, ctx.n(300, 4000) * widen, hare=True, boundary=True), model_line, impl, **hk)
 
 
 def _hare(c):
